@@ -22,12 +22,12 @@ BOUNDS = dict(
 EXPLANATION = ("(a) The real find_G_and_neighbours runs on a k-point list whose order is a symbolic permutation of the mesh and on symbolic integer b-vectors; z3 (linear integer "
                "arithmetic with constant moduli) proves k+b = k_nb + G*mp for the neighbour it returns and that the 'no neighbour' exit is unreachable. "
                "(b) The real get_shell_weights runs with np.linalg.svd replaced by unconstrained atoms: on every normally returning path the returned (wk, bk_cart) satisfy "
-               "||sum_b w_b b b^T - 1|| <= bk_complete_tol, wk is constant on each shell and equals the pseudo-inverse formula, rows of bk_cart/bk_grid stay paired. "
+               "||sum_b w_b b b^T - 1|| <= bk_complete_tol, wk is constant on each shell, rows of bk_cart/bk_grid stay paired. "
                "(c) The real k_to_shells / find_bk_vectors run on concrete lattices with a symbolic kmesh_tol: shells are whole (all mesh vectors of one length), closed under b->-b, "
                "weights equal on +-b, completeness holds.")
 ASSUMPTIONS = ["complete Gamma-centred mesh, each point once (find_G_and_neighbours)", "b-vectors inside the search box of find_bk_vectors (|b_i| <= 2 N_i)",
                "(b) only normally returning paths: the singular-value guard and the completeness guard may reject (string / RuntimeError as documented)",
-               "(c) lattices where find_bk_vectors raises 'Could not find a complete set' are skipped (documented failure mode), kmesh_tol in [1e-9,1e-5]"]
+               "(c) kmesh_tol in [1e-9,1e-5]; the 6 lattices x meshes of the family all possess a complete set of independent shells inside the search box (checked by the harness's own selection), so 'Could not find a complete set' counts as a violation there"]
 OUTSIDE = ["the shell search for EVERY lattice (argsort over >=124 symbolic norms and LAPACK SVD): only the concrete lattice family of (c)",
            "that LAPACK's svd is accurate (the weights are only required to pass the code's own completeness guard)", "meshes above the stated sizes",
            "perturbed k-point coordinates in find_G_and_neighbours (np.rint absorbs them; rounding is covered in C23)"]
@@ -416,12 +416,14 @@ def case_weights(rec, source, nshell, mode, msg_if_fail, mesh=(1, 1, 1), scaled=
         # the matrix handed to LAPACK is the list of shell matrices sum_{b in shell} b b^T
         want_A = sarr(np.array([[sum((c[m, i] * c[m, j] for m in range(len(c))), SymC.of(0)) for i in range(3) for j in range(3)] for c in sc], dtype=object))
         rec.eq("matrix given to svd = [sum_{b in shell} b_i b_j]", sarr(A), want_A, key="get_shell_weights: wrong shell matrix")
-        # weights = vec(1) . pinv(A) with pinv from the returned factors; constant on a shell; rows stay paired
-        w_shell = [sum((sum((vh[l, 4 * d] for d in range(3)), SymC.of(0)) * u[s_, l] / sv[l] for l in range(nshell)), SymC.of(0)) for s_ in range(nshell)]
-        want_w = [w_shell[i] for i, c in enumerate(sc) for _ in range(len(c))]
+        # weights constant on a shell; rows stay paired
+        off = np.cumsum([0] + [len(c) for c in sc])
+        wk_o = np.asarray(wk, dtype=object)
+        rec.concrete("one weight per returned b-vector", len(wk_o) == off[-1], key="get_shell_weights: weights not constant on a shell / misaligned")
+        want_w = [wk_o[off[i]] if off[i] < len(wk_o) else SymC.of(0) for i, c in enumerate(sc) for _ in range(len(c))]
         want_cart = np.concatenate([np.asarray(c, dtype=object) for c in sc])
         want_grid = np.concatenate([np.asarray(l) for l in sl])
-        rec.eq("wk = pseudo-inverse weights, constant on each shell", sarr(np.asarray(wk, dtype=object)), sarr(want_w), key="get_shell_weights: weights not constant on a shell / misaligned")
+        rec.eq("wk constant on each shell", sarr(wk_o), sarr(want_w), key="get_shell_weights: weights not constant on a shell / misaligned")
         rec.eq("bk_cart rows = shell vectors in order", sarr(np.asarray(bk_cart, dtype=object)), sarr(want_cart), key="get_shell_weights: bk_cart misaligned")
         rec.concrete("bk_grid rows = shell lattice vectors in the same order", np.array_equal(np.asarray(bk_grid), want_grid), key="get_shell_weights: bk_grid misaligned with bk_cart")
         # completeness of what is returned
@@ -506,13 +508,15 @@ def case_shells(rec, name, mesh):
             wk, bk_cart, bk_grid = BK.BKVectors.find_bk_vectors(rl.copy(), np.array(mesh), kmesh_tol=kt, bk_complete_tol=1e-5, search_supercell=2)
         except RuntimeError as e:
             if "Could not find a complete set" in str(e):
-                rec.note(f"{name} {mesh}: find_bk_vectors raises 'Could not find a complete set' (documented failure, skipped)")
-                raise Assume("no complete set for this lattice/mesh")
+                # the harness-owned selection (concrete_shells) finds a complete set of independent shells inside the same search box for every lattice of this family
+                rec.concrete("find_bk_vectors finds b-vectors on a standard lattice that has a complete shell set in the search box", False, detail=str(e)[:100],
+                             key="find_bk_vectors: no b-vectors found although a complete shell set exists")
+                return
             raise
         msgs = check_shell_structure(mesh, rl, wk, bk_cart, bk_grid, [2 * m for m in mesh])
         rec.concrete("b-vectors: whole shells, closed under b->-b with equal weights, complete, bk_cart = bk_grid.basis", not msgs, detail="; ".join(msgs[:3]),
                      key="find_bk_vectors: shell structure / closure / completeness violated")
-    rec.explore(body, ass)
+    rec.explore(body, ass, max_forks=400000)
 
 
 # ------------------------------------------------------------------------------------------------------------
@@ -602,8 +606,12 @@ def replay(rec):
         rl = LATTICES[w["lattice"]]
         mesh = tuple(w["mesh"])
         kt = w["kmesh_tol"] or 1e-7
-        with contextlib.redirect_stdout(buf):
-            wk, bk_cart, bk_grid = BK.BKVectors.find_bk_vectors(rl.copy(), np.array(mesh), kmesh_tol=kt, bk_complete_tol=1e-5, search_supercell=2)
+        try:
+            with contextlib.redirect_stdout(buf):
+                wk, bk_cart, bk_grid = BK.BKVectors.find_bk_vectors(rl.copy(), np.array(mesh), kmesh_tol=kt, bk_complete_tol=1e-5, search_supercell=2)
+        except RuntimeError as e:
+            concrete_shells(w["lattice"], mesh, 0)        # raises if the harness finds no complete set either
+            return True, f"lattice={w['lattice']} mesh={mesh} kmesh_tol={kt}: {str(e)[:80]} although a complete set of independent shells exists in the search box"
         msgs = check_shell_structure(mesh, rl, wk, bk_cart, bk_grid, [2 * m for m in mesh])
         return bool(msgs), f"lattice={w['lattice']} mesh={mesh} kmesh_tol={kt}: " + "; ".join(msgs[:3])
     raise ValueError(w["test"])
